@@ -735,6 +735,8 @@ func runC06(c *Ctx) {
 	// ---------- R9 collected elements are distinct objects ----------
 	checkFreshElements(c, "R9")
 	checkBufferReinitialisers(c, "R10")
+	checkAttrBlockFollowsItsFlags(c, "R11")
+	checkFilexferRequestDispatch(c, "R12")
 
 	// ---------- R8 count guards refuse only what cannot fit ----------
 	checkCountGuards(c, "R8")
@@ -1541,4 +1543,132 @@ func callsBigEndian(f *ssa.Function, method string) bool {
 		}
 	})
 	return found
+}
+
+// checkAttrBlockFollowsItsFlags (R11): an ATTRS block is a flags word followed by exactly the fields the word announces.
+// Package sftp writes the word with marshalUint32 and the fields with marshalFileStat(b, flags, …): wherever the two
+// are written by one function (the encoders of OPEN, SETSTAT, FSETSTAT, MKDIR, and marshalFileInfo), the flags handed
+// to marshalFileStat must be the very value whose word was written — not the flags some other source (the FileInfo
+// the attributes were taken from) would announce.  Otherwise the word and the block disagree and the receiver reads
+// one field out of the bytes of another.
+func checkAttrBlockFollowsItsFlags(c *Ctx, rule string) {
+	p := c.P
+	mfs := p.Func("marshalFileStat")
+	if mfs == nil {
+		c.missing(rule, "marshalFileStat")
+		return
+	}
+	c.looked("marshalFileStat")
+	n := 0
+	// a field of the packet is the same value wherever it is read (in the method or in a literal inside it)
+	key := func(v ssa.Value) string {
+		v = stripConv(v)
+		for _, l := range leavesOf(v) {
+			if l.Kind == leafFieldLoad && len(leavesOf(v)) == 1 {
+				return "field:" + typeName(l.Base.Type()) + "." + l.Field
+			}
+		}
+		return valKey(v)
+	}
+	byOuter := map[*ssa.Function][]*ssa.Function{}
+	for _, fn := range p.ModuleFuncs() {
+		if o := outermost(fn); o.Pkg == p.Sftp && o != mfs {
+			byOuter[o] = append(byOuter[o], fn)
+		}
+	}
+	var outers []*ssa.Function
+	for o := range byOuter {
+		outers = append(outers, o)
+	}
+	sort.Slice(outers, func(i, j int) bool { return outers[i].String() < outers[j].String() })
+	for _, o := range outers {
+		var calls []*ssa.Call
+		words := map[string]bool{}
+		for _, fn := range byOuter[o] {
+			eachInstr(fn, func(in ssa.Instruction) {
+				call, ok := in.(*ssa.Call)
+				if !ok {
+					return
+				}
+				if call.Call.StaticCallee() == mfs && len(call.Call.Args) == 3 {
+					calls = append(calls, call)
+				}
+				if calleeName(&call.Call) == "marshalUint32" && len(call.Call.Args) == 2 {
+					words[key(call.Call.Args[1])] = true
+				}
+			})
+		}
+		sort.Slice(calls, func(i, j int) bool { return calls[i].Pos() < calls[j].Pos() })
+		for ord, call := range calls {
+			n++
+			k := key(call.Call.Args[1])
+			c.check(words[k], rule, fmt.Sprintf("%s: attribute block #%d laid out by the flags word it follows", fnName(o), ord+1), p.Pos(call.Pos()),
+				"marshalFileStat gets the flags this function wrote as the word", "the attribute block is laid out by "+k+", which is not a flags word this function writes: the word announces one set of fields and the block carries another")
+		}
+	}
+	c.check(n >= 8, rule, "attribute blocks written next to their flags word", "?", fmt.Sprintf("%d sites", n), fmt.Sprintf("only %d sites found", n))
+}
+
+// checkFilexferRequestDispatch (R12): filexfer's RequestPacket decodes a request by asking newPacketFromType for an
+// empty packet of the type byte.  For every request type of SFTP v3 (3..20 and 200) it must hand out a packet, and that
+// packet's own Type() must be the byte asked for — otherwise the codec cannot read back what its own MarshalPacket
+// (and package sftp's encoder, which R1/R2 hold to the same layout) writes.  Decided by running newPacketFromType and
+// the Type methods in the SSA interpreter, so a switch and a table of constructors are read alike.
+func checkFilexferRequestDispatch(c *Ctx, rule string) {
+	p := c.P
+	var fn *ssa.Function
+	for _, f := range p.ModuleFuncs() {
+		if f.Pkg == p.Sshfx && f.Name() == "newPacketFromType" && f.Parent() == nil {
+			fn = f
+		}
+	}
+	if fn == nil || len(fn.Params) != 1 {
+		c.missing(rule, "sshfx newPacketFromType")
+		return
+	}
+	c.looked(fnName(fn))
+	pt := fn.Params[0].Type()
+	var codes []int64
+	for k := int64(3); k <= 20; k++ {
+		codes = append(codes, k)
+	}
+	codes = append(codes, 200)
+	for _, k := range codes {
+		key := fmt.Sprintf("filexfer decodes request type %d", k)
+		st := newEvaluator(p).run(fn, []evVal{evInt(k, pt)}, 0)
+		if st.kind != "return" || len(st.vals) != 2 {
+			c.und(rule, key, p.Pos(fn.Pos()), "newPacketFromType could not be evaluated: "+st.kind+" "+st.why)
+			continue
+		}
+		pk := st.vals[0]
+		if pk.k == evNil {
+			c.bad(rule, key, p.Pos(fn.Pos()), fmt.Sprintf("newPacketFromType has no packet for request type %d: RequestPacket cannot decode a request the codec itself encodes", k))
+			continue
+		}
+		if pk.k != evIface || pk.t == nil {
+			c.und(rule, key, p.Pos(fn.Pos()), "the packet newPacketFromType returns is not understood")
+			continue
+		}
+		m := p.SSA.MethodSets.MethodSet(pk.t).Lookup(p.Sshfx.Pkg, "Type")
+		var tf *ssa.Function
+		if m != nil {
+			tf = p.SSA.MethodValue(m)
+		}
+		if tf == nil {
+			c.und(rule, key, p.Pos(fn.Pos()), typeName(pk.t)+" has no Type method")
+			continue
+		}
+		recv := evVal{k: evObject, obj: &evObj{typ: derefType(pk.t), fields: map[string]evVal{}}}
+		if pk.inner != nil {
+			recv = *pk.inner
+		}
+		ts := newEvaluator(p).run(tf, []evVal{recv}, 0)
+		if ts.kind != "return" || len(ts.vals) != 1 || ts.vals[0].k != evConst {
+			c.und(rule, key, p.Pos(tf.Pos()), typeName(pk.t)+".Type() could not be evaluated")
+			continue
+		}
+		got, _ := constant.Int64Val(constant.ToInt(ts.vals[0].c))
+		c.check(got == k, rule, key, p.Pos(fn.Pos()), fmt.Sprintf("%s, whose Type() is %d", typeName(pk.t), got),
+			fmt.Sprintf("for type byte %d newPacketFromType hands out a %s, whose Type() is %d: the body is decoded with another packet's layout", k, typeName(pk.t), got))
+	}
 }
